@@ -212,7 +212,7 @@ def gen_cases(tier, seed):
     # voxel counts 8, 18 (and 12, 45 in thorough): not all divisible by the worker counts
     for grid in ([[2, 2, 2], [3, 3, 2]] if q else [[2, 2, 2], [3, 2, 2], [3, 3, 2], [5, 3, 3]]):
         for procs in ([2, 4] if q else [2, 4, 8]):
-            for kind in ('surface', 'volume'):
+            for kind in ('surface', 'volume', 'boxvol'):
                 cases.append(dict(mode='sched_voxelize', grid=grid, procs=procs, kind=kind))
     return cases
 
@@ -379,7 +379,13 @@ def _tess_result(procs, nsurf, seed):
 
 def _voxel_result(procs, kind, grid, seed):
     from geomdl import voxelize
-    if kind == 'surface':
+    if kind == 'boxvol':
+        # axis-aligned trilinear box: every voxel of the grid, the last ones included, contains sampled points
+        d = A.shape_desc([[0, 0, 1, 1], [0, 0, 1, 1], [0, 0, 1, 1]], [1, 1, 1], False, 3, 'coded')
+        d['points'] = [[float(i), 2.0 * j, 3.0 * k] for k in range(2) for i in range(2) for j in range(2)]
+        o = S.build(d, seed)
+        o.sample_size_u, o.sample_size_v, o.sample_size_w = 4, 4, 4
+    elif kind == 'surface':
         o = S.build(A.shape_desc([[0, 0, 0, 0.5, 1, 1, 1], [0, 0, 1, 1]], [2, 1], False, 3, 'coded'), seed)
         o.sample_size_u, o.sample_size_v = 4, 3
     else:
